@@ -357,6 +357,8 @@ def model_request(case):
         return optcfglib.conv_request(case)
     if case['path'] == 'plugcmd':
         return optcfglib.cmd_request(case)
+    if case['path'] == 'tlayers':
+        return optcfglib.tlayers_request(case)
     req = {'model': 'opt', 'spec': case['spec'], 'env': case['env'], 'ini': case['ini'], 'glob': case['glob'],
            'dodo': case['dodo'], 'argv': case['argv']}
     add_layers(req, case)
@@ -404,6 +406,8 @@ def run_impl(case, workdir):
         return optcfglib.impl_conv(case)
     if p == 'plugcmd':
         return optcfglib.impl_cmd(case, workdir)
+    if p == 'tlayers':
+        return optcfglib.impl_tlayers(case, workdir)
     if p == 'parse':
         return optlib.impl_parse(case)
     if p == 'command':
@@ -491,6 +495,8 @@ def judge(case, impl, model, spec):
         return optcfglib.judge_conv(case, impl, model)
     if case['path'] == 'plugcmd':
         return optcfglib.judge_cmd(case, impl, model)
+    if case['path'] == 'tlayers':
+        return optcfglib.judge_tlayers(case, impl, model)
     if case.get('klayers'):
         v0, d0 = optcfglib.judge_layers(case, impl, model)
         v1, d1 = judge(dict(case, klayers=None), impl, model, spec)
@@ -641,7 +647,7 @@ def refs_of(asgs, opts):
 
 
 def nontrivial(case, impl):
-    if case['path'] in ('plug', 'conv', 'plugcmd'):
+    if case['path'] in ('plug', 'conv', 'plugcmd', 'tlayers'):
         return True
     r = impl.get('res') or {}
     if 'err' in r:
@@ -814,11 +820,13 @@ def witness_of(case, impl, model, spec, label, note):
 # ------------------------------------------------------------------------------------------------ workers
 
 def account(st, case, impl, model, spec):
-    if case['path'] in ('plug', 'conv', 'plugcmd'):
+    if case['path'] in ('plug', 'conv', 'plugcmd', 'tlayers'):
         st.case({k: v for k, v in case.items() if k not in BLANK_KEYS or k == 'argv'}, True)
         st.traces += 1
         st.count('path:' + case['path'])
-        if case['path'] == 'plugcmd':
+        if case['path'] == 'tlayers':
+            st.count('tlayers:winner=%s,noise=%s' % (model.get('winner'), '+'.join(case['noise']) or '-'))
+        elif case['path'] == 'plugcmd':
             st.count('plugcmd:first-word=%s,command=%s,class=%s,outcome=%s%s'
                      % ((case['argv'] or ['-'])[0], model.get('cmd'), (model.get('cls') or ['-'])[0], model.get('pick'),
                         ',entry-does-not-load' if case.get('broken') else ''))
@@ -1048,6 +1056,7 @@ def run(ctx):
     cfgc = [optcfglib.gen_layers_case(crng, base) for _ in range(150 * n_cfg)] if base is not None else []
     cfgc += [optcfglib.gen_plug_case(crng, core) for _ in range(150 * n_cfg)]
     cfgc += [optcfglib.gen_conv_case(crng) for _ in range(120 * n_cfg)]
+    cfgc += [optcfglib.gen_tlayers_case(crng) for _ in range(80 * n_cfg)]
     ccmds = optcfglib.core_commands()
     cfgc += [optcfglib.gen_cmd_case(crng, ccmds) for _ in range(100 * n_cfg)]
     ctx.count('config-side:cases', len(cfgc))
